@@ -314,6 +314,11 @@ pub const C05C: ConcCheck = ConcCheck { asked: "C05", sub: "conc", mix: Mix::Rea
 pub const C05R: ConcCheck = ConcCheck { asked: "C05", sub: "conc-resize", mix: Mix::Resize, max_threads: 3, max_ops: 3, opts: C01.opts, judge: c05c_judge, mk_probe: NO_PROBE };
 pub const C05H: ConcCheck = ConcCheck { asked: "C05", sub: "conc-helpers", mix: Mix::Helpers, max_threads: 4, max_ops: 3, opts: C01.opts, judge: c05c_judge, mk_probe: NO_PROBE };
 pub const C05T: ConcCheck = ConcCheck { asked: "C05", sub: "conc-treemove", mix: Mix::TreeMove, max_threads: 3, max_ops: 3, opts: C01.opts, judge: c05c_judge, mk_probe: NO_PROBE };
+pub const C05A: ConcCheck = ConcCheck { asked: "C05", sub: "conc-retain", mix: Mix::Retain, max_threads: 3, max_ops: 3, opts: C01.opts, judge: c05c_judge, mk_probe: NO_PROBE };
+pub const C05D: ConcCheck = ConcCheck { asked: "C05", sub: "conc-drain", mix: Mix::Drain, max_threads: 3, max_ops: 3, opts: C01.opts, judge: c05c_judge, mk_probe: NO_PROBE };
+pub const C05K: ConcCheck = ConcCheck { asked: "C05", sub: "conc-perkey", mix: Mix::PerKey, max_threads: 3, max_ops: 3, opts: C01.opts, judge: c05c_judge, mk_probe: NO_PROBE };
+pub const C05U: ConcCheck = ConcCheck { asked: "C05", sub: "conc-compute", mix: Mix::Compute, max_threads: 3, max_ops: 3, opts: C01.opts, judge: c05c_judge, mk_probe: NO_PROBE };
+pub const C05_EXTRA: [&ConcCheck; 4] = [&C05A, &C05D, &C05K, &C05U];
 pub const C05L: ConcCheck = ConcCheck { asked: "C05", sub: "conc-long", mix: Mix::Long, max_threads: 8, max_ops: 12, opts: C01.opts, judge: c05c_judge, mk_probe: NO_PROBE };
 
 fn c04c_judge(_prog: &Prog, out: &ConcOut) -> Result<(bool, Vec<(&'static str, u64)>), JudgeErr> {
@@ -343,7 +348,8 @@ pub const C04Z: ConcCheck = ConcCheck { sub: "conc-resize", mix: Mix::Resize, ..
 pub const C04D: ConcCheck = ConcCheck { sub: "conc-drain", mix: Mix::Drain, ..C04C };
 pub const C04H: ConcCheck = ConcCheck { sub: "conc-helpers", mix: Mix::Helpers, max_threads: 4, ..C04C };
 pub const C04M: ConcCheck = ConcCheck { sub: "conc-treemove", mix: Mix::TreeMove, ..C04C };
-pub const C04_ALL: [&ConcCheck; 7] = [&C04C, &C04R, &C04T, &C04Z, &C04D, &C04M, &C04H];
+pub const C04U: ConcCheck = ConcCheck { sub: "conc-compute", mix: Mix::Compute, ..C04C };
+pub const C04_ALL: [&ConcCheck; 8] = [&C04C, &C04R, &C04T, &C04Z, &C04D, &C04M, &C04U, &C04H];
 
 /* ------------------------------- C08 ------------------------------- */
 
@@ -477,6 +483,9 @@ pub const C11L: ConcCheck = ConcCheck { sub: "term-long", mix: Mix::Long, max_th
 pub const C11C: ConcCheck = ConcCheck { sub: "term-resize", mix: Mix::Resize, ..C11 };
 pub const C11H: ConcCheck = ConcCheck { sub: "term-helpers", mix: Mix::Helpers, max_threads: 4, ..C11 };
 pub const C11T: ConcCheck = ConcCheck { sub: "term-treemove", mix: Mix::TreeMove, ..C11 };
+pub const C11A: ConcCheck = ConcCheck { sub: "term-retain", mix: Mix::Retain, ..C11 };
+pub const C11D: ConcCheck = ConcCheck { sub: "term-drain", mix: Mix::Drain, ..C11 };
+pub const C11U: ConcCheck = ConcCheck { sub: "term-compute", mix: Mix::Compute, ..C11 };
 
 fn c11_shard(ctx: &Ctx, out: &mut ShardOut) {
     let pool = Pool::new();
@@ -487,6 +496,9 @@ fn c11_shard(ctx: &Ctx, out: &mut ShardOut) {
     let lb = Budget { single: 0, double: 0, coarse2: 0, tapes: ctx.by_tier(24, 200) as usize, tape_seed: ctx.shard_seed(93), triple: 0 };
     C11L.run(ctx, &pool, 19, ctx.share(ctx.by_tier(96, 3_000)) as u32, &lb, out);
     C11T.run(ctx, &pool, 20, ctx.share(ctx.by_tier(300, 4_000)) as u32, &b, out);
+    C11A.run(ctx, &pool, 22, ctx.share(ctx.by_tier(160, 3_000)) as u32, &b, out);
+    C11D.run(ctx, &pool, 23, ctx.share(ctx.by_tier(96, 2_000)) as u32, &b, out);
+    C11U.run(ctx, &pool, 24, ctx.share(ctx.by_tier(160, 3_000)) as u32, &b, out);
     C11H.run(ctx, &pool, 21, ctx.share(ctx.by_tier(128, 2_000)) as u32, &helpers_budget(ctx.tier, ctx.shard_seed(96)), out);
 }
 fn c11_replay(sub: &str, case: &Value) -> Result<(), CaseFail> {
@@ -496,6 +508,9 @@ fn c11_replay(sub: &str, case: &Value) -> Result<(), CaseFail> {
         "term-perkey" => C11B.replay(&pool, case, &b),
         "term-resize" => C11C.replay(&pool, case, &b),
         "term-treemove" => C11T.replay(&pool, case, &b),
+        "term-retain" => C11A.replay(&pool, case, &b),
+        "term-drain" => C11D.replay(&pool, case, &b),
+        "term-compute" => C11U.replay(&pool, case, &b),
         "term-helpers" => C11H.replay(&pool, case, &helpers_budget(Tier::Thorough, 1)),
         "term-long" => C11L.replay(&pool, case, &Budget { single: 0, double: 0, coarse2: 0, tapes: 200, tape_seed: 1, triple: 0 }),
         _ => C11.replay(&pool, case, &b),
